@@ -142,7 +142,8 @@ def run(ctx):
                 items.append(w)
     # compiled only (both static side conditions below are evaluated on them; no execution)
     static_only = [specgen_hw.gen_cascade(rng) for _ in range(250 if q else 3000)]
-    for it in popgen.shape(rng, 100 if q else 1500):
+    # index-math outputs are built with an explicit shape in plain mode as well (iterRangeShapeRef over the output rank)
+    for it in list(popgen.shape(rng, 100 if q else 1500)) + list(popgen.affine(rng, 80 if q else 800)):
         w = specgen_hw.wrap_single(rng, it)
         if w is not None:
             static_only.append(w)
